@@ -51,6 +51,11 @@ def limit_chunkings(body):
     for a in range(0, len(body) + 1, max(1, len(body) // 24)):
         yield [body[:a], b"", body[a:]]
     yield [b""] + [body[i:i + 7] for i in range(0, len(body), 7)] + [b""]
+    if body.endswith(b"--\r\n"):  # the line break after the close delimiter is optional
+        short = body[:-2]
+        yield [short]
+        yield [short[:-3], short[-3:]]
+        yield [short[i:i + 1] for i in range(len(short))]
     yield [x for i in range(0, len(body), 5) for x in (body[i:i + 5], b"")]
 
 
@@ -145,19 +150,28 @@ class Watch:
                 watch.sinks.append(s)
         return Sink
 
+    def handed_over(self, i, c):
+        """The moment chunk i has been received: everything received so far, this chunk included, minus what reached the sink may
+        be one chunk (this one) plus the hold-back - not this chunk on top of an earlier one that is still in flight."""
+        self.prev = len(c)
+        self.fed += len(c)
+        if self.file_start is not None:
+            received = max(0, min(self.fed, self.file_end) - self.file_start)
+            written = len(self.sinks[-1].data) if self.sinks else 0
+            if received - written > len(c) + self.dlen + SLACK:
+                self.problems.append(f"when chunk {i} ({len(c)} bytes) arrived, {received} bytes of the upload had been received but only {written} handed to the file sink")
+
     def sync(self):
         for i, c in enumerate(self.chunks):
             self.check(sys._getframe(1), i)
-            self.prev = len(c)
-            self.fed += len(c)
+            self.handed_over(i, c)
             yield c
 
     async def asynch(self):
         for i, c in enumerate(self.chunks):
             f = sys._getframe(1)
             self.check(f, i)
-            self.prev = len(c)
-            self.fed += len(c)
+            self.handed_over(i, c)
             yield c
 
 
